@@ -299,3 +299,58 @@ def task_limit(task):
     if lim is None:
         return {"limit": None}
     return {"limit": _rat(lim) if not sp.sympify(lim).free_symbols else "?" + str(lim)}
+
+
+def task_afterloop_tail(task):
+    """tail-bound goals through the real --after_loop path: `polar.py f --goals "E(M)" "E(M**2)" "P(M >= a) <= ?"
+    "P(M > a) >= ?" --after_loop`; returns the after-loop raw moments and the printed bounds (exact rationals or 'oo')."""
+    mon, a = task["monom"], task["a"]
+    goals = [f"E({mon})", f"E(({mon})**2)", f"P({mon} >= {a}) <= ?", f"P({mon} > {a}) >= ?"]
+    res = {"goals": goals}
+    fd, path = tempfile.mkstemp(suffix=".prob", prefix="c09t_")
+    with os.fdopen(fd, "w") as f:
+        f.write(task["text"])
+    try:
+        from cli.argument_parser import ArgumentParser, _set_settings
+        args = ArgumentParser().argument_parser.parse_args([path, "--goals"] + goals + ["--after_loop"])
+        _set_settings(args)
+        from cli.actions.goals_action import GoalsAction
+        from inputparser import parse_program
+        from program import normalize_program
+        from recurrences import RecBuilder
+        try:
+            program = normalize_program(parse_program(path))
+        except BaseException as e:  # noqa
+            res["stage"] = "normalize"
+            res["exception"] = classify_exception(e)
+            return res
+        action = GoalsAction(args)
+        action.initialize_program(program, RecBuilder(program))
+        parsed = action.parse_goals()
+        out = {}
+        for key, (gtype, gdata) in zip(["m1", "m2", "upper", "lower"], parsed):
+            buf, old = io.StringIO(), sys.stdout
+            sys.stdout = buf
+            try:
+                if key in ("m1", "m2"):
+                    value, _ = action.handle_moment_goal(gdata)
+                    out[key] = _rat(value) if not sp.sympify(value).free_symbols else "?" + str(value)
+                elif key == "upper":
+                    action.handle_tail_bound_upper_goal(gdata)
+                else:
+                    action.handle_tail_bound_lower_goal(gdata)
+            except BaseException as e:  # noqa
+                sys.stdout = old
+                res["stage"] = key
+                res["exception"] = classify_exception(e)
+                return res
+            finally:
+                sys.stdout = old
+            out[key + "_printed"] = buf.getvalue()
+        res.update(out)
+        return res
+    finally:
+        try:
+            os.unlink(path)
+        except OSError:
+            pass
